@@ -315,6 +315,26 @@ def build_instance(name, p):
         if side == 2:
             return inst("BM", ("=", b, ("+", t, a)), m_equal(("=", ("-", b, t), a)), target="RL", contexts=S.CONTEXTS_ROOT)
         return inst("BM", ("=", b, ("+", a, t)), m_equal(("=", ("-", b, t), a)), target="RR", contexts=S.CONTEXTS_ROOT)
+    if name == "BM-add3":
+        t = C(k1) if p["i"] % 3 == 0 else term(k1, v, m if p["i"] % 3 == 2 else None)
+        form = p["i"] % 6
+        if form == 0:
+            return inst("BM", ("=", ("+", ("+", a, t), c), b), m_equal(("=", ("+", a, c), ("-", b, t))), target="LLR", contexts=S.CONTEXTS_ROOT)
+        if form == 1:
+            return inst("BM", ("=", ("+", ("+", t, a), c), b), m_equal(("=", ("+", a, c), ("-", b, t))), target="LLL", contexts=S.CONTEXTS_ROOT)
+        if form == 2:
+            return inst("BM", ("=", ("+", a, ("+", t, c)), b), m_equal(("=", ("+", a, c), ("-", b, t))), target="LRL", contexts=S.CONTEXTS_ROOT)
+        if form == 3:
+            return inst("BM", ("=", b, ("+", ("+", a, t), c)), m_equal(("=", ("-", b, t), ("+", a, c))), target="RLR", contexts=S.CONTEXTS_ROOT)
+        if form == 4:
+            return inst("BM", ("=", b, ("+", a, ("+", c, t))), m_equal(("=", ("-", b, t), ("+", a, c))), target="RRR", contexts=S.CONTEXTS_ROOT)
+        return inst("BM", ("=", ("+", ("+", ("+", a, c), t), V(w)), b), m_equal(("=", ("+", ("+", a, c), V(w)), ("-", b, t))), target="LLR", contexts=S.CONTEXTS_ROOT)
+    if name == "CA-zero":
+        forms = [("/", C(0), C(k1)), ("^", C(abs(k1)), C(0)), ("^", C(0), C(abs(k2) if isinstance(k2, int) else 3)), ("*", C(0), C(k1)), ("+", C(0), C(k1)), ("-", C(k1), C(0)), ("*", C(k1), C(0.0)), ("-", C(0), C(k1))]
+        lhs = forms[p["i"] % len(forms)]
+        x, y = cval(lhs[1][1]), cval(lhs[2][1])
+        val = {"/": lambda: x / y, "^": lambda: X._pow(x, y, X.State({})), "*": lambda: x * y, "+": lambda: x + y, "-": lambda: x - y}[lhs[0]]()
+        return inst("CA", lhs, m_constant(val))
     if name == "BM-mul":
         t = term(k1, v, m)
         if p["i"] % 2 == 0:
@@ -341,7 +361,7 @@ SCHEMAS = [
     "CS-add", "CS-mul", "CS-chain", "CS-flip", "CS-refuse", "AG-left", "AG-right", "AG-refuse", "CA-simple", "CA-neg", "CA-sibling", "CA-alt", "CA-refuse",
     "DF-simple", "DF-chained-left", "DF-chained-right", "DF-constants", "DF-constants-refuse", "DF-refuse", "DM-right", "DM-left", "DM-refuse", "MI", "MI-neg",
     "MI-refuse", "RS-sub", "RS-sub-const", "RS-sub-term", "RS-sub-negconst", "RS-sub-negvar", "RS-sub-negterm", "RS-add-negconst", "RS-add-negterm", "RS-refuse",
-    "VM", "VM-refuse", "BM-add", "BM-mul", "BM-refuse",
+    "VM", "VM-refuse", "BM-add", "BM-add3", "BM-mul", "BM-refuse", "CA-zero",
 ]
 
 
@@ -365,9 +385,10 @@ def params(draw, name):
         if name.startswith("DF"):
             # the kept addend must not itself be a like term or change the arrangement
             p["A"] = draw(S.atom().filter(lambda a: a[0] in ("sgn", "/") or (a[0] == "^" and a[1][0] == "+")))
-        if name == "BM-add":
+        if name in ("BM-add", "BM-add3"):
             p["A"] = draw(S.atom())
             p["B"] = draw(S.anyexp())
+            p["G"] = draw(S.atom())
         if name == "BM-mul":
             p["R"] = draw(S.atom())
     p["k1"], p["k2"] = draw(nz), draw(nz)
